@@ -181,9 +181,14 @@ def _case(draw, texts):
     # layout: random lines with random indentation, strings (empty, multi-line, interpolated), comments
     n = draw(st.integers(1, 12))
     lines = []
+    # string literals composed of segments: text, line breaks, interpolated expressions (also with line breaks INSIDE the braces,
+    # several per literal, with nested quotes), escaped brackets and quotes, empty brackets
+    SEG = ["a", "b c", " ", "\n", "\n  ", "\n\n", "{x}", "{ x + 1 }", "{x\n}", "{\nx}", "{x +\n 1}", "{f(\n1)}", "{y}", '{"q"}', "\\{", '\\"',
+           "{}", "{x}{y}", "é", "\t"]
+    composed = ['"' + "".join(draw(st.lists(st.sampled_from(SEG), min_size=0, max_size=5))) + '"' for _ in range(draw(st.integers(0, 3)))]
     for _ in range(n):
         ind = draw(st.sampled_from([0, 0, 4, 4, 8, 12, 2, 6]))
-        pieces = draw(st.lists(st.sampled_from(
+        pieces = draw(st.lists(st.sampled_from(composed + 
             ["x", "def", ":=", "1", '""', '"s"', '"a{x}b"', '"a{ x + 1 }{y}"', '"l1\nl2"', '"\n"', '"x\n  {y}"',
              '"""doc"""', '"""d1\nd2"""', '"""\n"""', "# c", "+", "(", ")", "if", "then", "else", "=>", "f(x)",
              '"{"q"}"', '"\\""', "..", "1.5", "2E3", "a.b", "[", "]", "?", ""]), min_size=0, max_size=5))
